@@ -18,26 +18,33 @@ RULE = ("(a) upstream.VerifMsgTruncated on all 256 values of byte 2 at lengths 3
         "server and a TCP server (or a bound, non-listening socket = connection refused) on the same port: catalogue = every "
         "value of byte 2 of the UDP reply, TCP side answering / answering then closing / dying after the query / dying on accept "
         "/ sending half a frame / refusing, on new and reused connections, stray short and foreign-id datagrams with TC set, "
-        "silent UDP server, 12/13 byte and 65535 byte TCP replies, UDP replies of 4094..4096 bytes; then seeded random sessions. "
+        "silent UDP server, 12/13 byte and 65535 byte TCP replies, UDP replies of 4094..4096 bytes; then seeded random sessions; "
+        "(c) 'the same server': NewUpstream(url, Opt{DialAddr}) with three harness servers (UDP+TCP each) at 127.0.0.1:P, decoy:P and "
+        "decoy:P2 (decoy = 127.0.0.2, 127.0.0.3, ::1; skipped if it cannot be bound), url naming one of them as udp://host:port, "
+        "host:port, udp://host, host (or a host name), DialAddr naming another or absent: which server got the UDP query, which "
+        "got the TCP query, whose answer the caller got; catalogue of all forms x TC/no TC plus seeded random combinations. "
         "A case is non-trivial when TC is set or the flag byte is not 0x80/0x81, or it has stray datagrams / a silent UDP "
-        "server / fewer than 4 bytes; distinct = distinct Gallina literal")
+        "server / fewer than 4 bytes / DialAddr set; distinct = distinct Gallina literal (dial cases contain the ephemeral ports)")
 ASSUMPTIONS = [
     "loopback UDP delivers the datagrams of one sender socket in order, and a bound non-listening TCP socket refuses connections (Linux)",
     "the TCP transport is used for one query at a time (sessions are sequential); concurrent fallbacks are C03/C15 territory",
     "miekg/dns Pack is the reference layout of the header flag bits",
+    "url parsing / parseDialAddr as modelled by the C18 model coq/Model/Addr.v (new_upstream), imported by Model/UdpTc.udp_upstream_dials",
 ]
 TRUSTED_BASE = [
     "hand-written model coq/Model/UdpTc.v tied to pkg/upstream/utils.go msgTruncated, pkg/upstream/upstream.go "
     "udpWithFallback / NewUpstream, transport readMsgUdp / TraditionalDnsConn id rewrite / ReuseConnTransport by "
     "differential execution (Judge.C17) and the regenerated constants tr_dns_header_len, min_frame_len in Gen/Constants.v; "
-    "the 4095 byte UDP receive buffer is a literal in the model (checked by the 4094/4095/4096 byte cases)",
+    "the 4095 byte UDP receive buffer is a literal in the model (checked by the 4094/4095/4096 byte cases); "
+    "udp_upstream_dials (both transports dial the one dialAddr) tied to NewUpstream by the DialAddr / decoy-server cases",
 ]
 LEVEL_TEXT = ("Theorems in coq/Properties/C17.v: for every header and body msgTruncated(encode_header h ++ rest) = TC flag of h "
               "(it is bit 1 of byte 2; slices under 3 bytes panic, which the 12 byte minimum of the UDP reader excludes); for every "
               "UDP outcome and every TCP outcome udpWithFallback uses TCP iff the UDP reply exists and has TC, hands TCP the caller's "
               "query unchanged, returns the TCP result (reply or error) when TC and the UDP reply untouched otherwise, and propagates "
               "UDP errors; for every sequence of queries on one upstream with arbitrary servers each step satisfies this, opens no TCP "
-              "connection without TC and at most one with TC. The model is run inside Coq on every case the Go driver observed on the "
+              "connection without TC and at most one with TC; for every upstream string and DialAddr the TCP retry dials the address the UDP "
+              "query went to (c17_retry_same_server, over the C18 address model). The model is run inside Coq on every case the Go driver observed on the "
               "real code (Judge.C17.agree) and the property's own reading of the observation is checked (Judge.C17.spec).")
 LEVEL_NOTE = ("Trusted: Coq kernel + vm_compute; hand-written model tied to the code by the differential run and Gen/Constants.v; "
               "loopback ordering; miekg Pack as reference bit layout. Sequential use of one upstream only. No axioms.")
